@@ -2,7 +2,9 @@
 
 Operation sequences on the real Deque (values inline and file-backed, maxlen in
 {None,0,1,3}, indices over the full negative/positive/out-of-range span,
-rotate/reverse/maxlen changes) against DC.Model.Layers.Deque (result + the whole
+rotate/reverse/maxlen changes, extend/extendleft/+=, count/remove under ==,
+the six comparisons against near misses of the contents, copy/pickle/reopen
+handles) against DC.Model.Layers.Deque (result + the whole
 underlying table); acceptor: collections.deque with the same maxlen executes
 the same operations and must give the same results and contents."""
 import collections
@@ -12,28 +14,90 @@ from props import base
 from common import Codec
 
 VALS = [0, 1, 2, 'a', 'b' * 12, b'y' * 20, None, (1, 2), 3.5, [1] * 9]
+EQUAL_SPELLINGS = [1.0, 2.0, 0.0, 'zz', 7]     # equal to a stored value under ==, or absent
 
 
 def gen_history(rng, length):
     maxlen = rng.choice([None, None, 0, 1, 3, 5])
     cfg = {'mfs': rng.choice([8, 16]), 'maxlen': maxlen, 'proto': rng.choice([2, 4, 5])}
     ops = []
+    mirror = collections.deque(maxlen=maxlen)
     for _ in range(length):
         m = rng.choices(['append', 'appendleft', 'pop', 'popleft', 'peek', 'peekleft', 'len', 'getitem', 'setitem', 'delitem',
-                         'iter', 'riter', 'rotate', 'reverse', 'clear', 'maxlen'],
-                        [8, 5, 4, 4, 2, 2, 2, 4, 3, 2, 2, 1, 2, 1, 0.5, 0.7])[0]
+                         'iter', 'riter', 'rotate', 'reverse', 'clear', 'maxlen',
+                         'extend', 'extendleft', 'iadd', 'count', 'remove', 'cmp', 'copy', 'pickle', 'reopen'],
+                        [8, 5, 4, 4, 2, 2, 2, 4, 3, 2, 2, 1, 2, 1, 0.5, 0.7,
+                         2, 2, 1, 2, 2, 3, 0.5, 0.5, 0.5])[0]
         op = {'m': m, 'now': 1000}
         if m in ('append', 'appendleft', 'setitem'):
             op['v'] = rng.choice(VALS)
+        if m in ('count', 'remove'):
+            op['v'] = rng.choice(VALS + EQUAL_SPELLINGS)
+        if m in ('extend', 'extendleft', 'iadd'):
+            op['vs'] = [rng.choice(VALS) for _ in range(rng.randint(0, 4))]
+        if m == 'cmp':
+            # mostly the deque's own contents with one element / the length perturbed
+            op['op'] = rng.choice(['eq', 'ne', 'lt', 'gt', 'le', 'ge'])
+            op['that'] = rng.choice(['list', 'deque'])
+            op['vs'] = None      # filled in by the mirror below
         if m in ('getitem', 'setitem', 'delitem'):
             op['i'] = rng.randint(-7, 7)
         if m == 'rotate':
             op['i'] = rng.randint(-9, 9)
         if m == 'maxlen':
             op['i'] = rng.choice([0, 1, 2, 4, 10])
+        mirror = apply_mirror(mirror, op, rng)
         ops.append(op)
     ops.append({'m': 'iter', 'now': 1000})
     return {'cls': 'deque', 'cfg': cfg, 'ops': ops, 'state_every': 4}
+
+
+def apply_mirror(d, op, rng):
+    """keep a collections.deque in step while generating, so that comparison operands can be near
+    misses of the current contents (equal, one element changed, a prefix, one longer)"""
+    m = op['m']
+    try:
+        if m == 'append':
+            d.append(op['v'])
+        elif m == 'appendleft':
+            d.appendleft(op['v'])
+        elif m == 'pop':
+            d.pop()
+        elif m == 'popleft':
+            d.popleft()
+        elif m == 'setitem':
+            d[op['i']] = op['v']
+        elif m == 'delitem':
+            del d[op['i']]
+        elif m == 'rotate':
+            d.rotate(op['i'])
+        elif m == 'reverse':
+            d.reverse()
+        elif m == 'clear':
+            d.clear()
+        elif m == 'maxlen':
+            d = collections.deque(d, maxlen=op['i'])
+        elif m in ('extend', 'iadd'):
+            d.extend(op['vs'])
+        elif m == 'extendleft':
+            d.extendleft(op['vs'])
+        elif m == 'remove':
+            d.remove(op['v'])
+        elif m == 'cmp':
+            vs = list(d)
+            how = rng.choice(['same', 'same', 'change', 'prefix', 'longer', 'random'])
+            if how == 'change' and vs:
+                vs[rng.randrange(len(vs))] = rng.choice(VALS + EQUAL_SPELLINGS)
+            elif how == 'prefix' and vs:
+                vs = vs[:rng.randrange(len(vs))]
+            elif how == 'longer':
+                vs = vs + [rng.choice(VALS)]
+            elif how == 'random':
+                vs = [rng.choice(VALS) for _ in range(rng.randint(0, 3))]
+            op['vs'] = vs
+    except (IndexError, ValueError):
+        pass
+    return d
 
 
 def acceptor(hist, io):
@@ -76,10 +140,27 @@ def acceptor(hist, io):
                 d.clear(); want = 'n'
             elif m == 'maxlen':
                 d = collections.deque(d, maxlen=op['i']); want = 'n'
+            elif m in ('extend', 'iadd'):
+                d.extend(op['vs']); want = 'n'
+            elif m == 'extendleft':
+                d.extendleft(op['vs']); want = 'n'
+            elif m == 'count':
+                want = 'i%d' % d.count(op['v'])
+            elif m == 'remove':
+                d.remove(op['v']); want = 'n'
+            elif m == 'cmp':
+                import operator
+                want = 'T' if getattr(operator, op['op'])(d, collections.deque(op['vs'])) else 'F'
+            elif m in ('copy', 'pickle', 'reopen'):
+                want = 'n'
             else:
                 continue
         except IndexError:
             want = '!IndexError'
+        except ValueError:
+            want = '!ValueError'
+        except TypeError:
+            want = '!TypeError'
         if res != want:
             return 'op #%d %s: Deque gave %s, collections.deque(maxlen=%r) gives %s' % (idx, m, res[:60], ml, want[:60])
     return None
